@@ -34,6 +34,9 @@ def build(seed):
     swarm = {'routes': prng.random() < 0.6, 'batch': prng.random() < 0.3, 'short_reads': False}
     plan = [op for op in P.history(prng, u, prng.randint(4, 9), swarm)
             if op['op'] != 'checkpoint']
+    if prng.random() < 0.3:
+        # a failed add/remove earlier in the history must not matter either
+        plan = P.sprinkle_faults(prng, plan, 1)
     return u, plan
 
 
